@@ -26,11 +26,14 @@ RULE = (
 )
 ASSUMPTIONS = ["restrict() of labmc/optspace.py defines 'restricted to the keys the class reports'"]
 
-KINDS = ["flat", "dotted", "dotted2", "deep", "defaulted", "ds", "applied", "const", "strconst", "listconst", "wholesect", "sectS", "unannotated", "underscore", "inherited"]
+KINDS = ["flat", "flatlonger", "dotted", "dottedlonger", "dotted2", "deep", "defaulted", "ds", "applied", "const", "strconst", "listconst", "wholesect", "sectS", "unannotated", "underscore", "inherited"]
 SPEC = {
     "flat": [("A", [1, 2])],
     "dotted": [("S.X", [1, 2]), ("S.Y", [ABSENT, 9])],
     "dotted2": [("S.W", [1, 2])],
+    # keys whose NAME merely begins with another member's key (AB / A, S.XY / S.X): different options
+    "flatlonger": [("AB", [1, 2])],
+    "dottedlonger": [("S.XY", [1, 2])],
     "deep": [("S.Z.K", [ABSENT, 1, 2])],
     "defaulted": [("B", [ABSENT, 2, 3])],
     "ds": [("C", [ABSENT, 4])],
@@ -63,6 +66,8 @@ def build_class(kinds):
         "flat": Option("A"),
         "dotted": Option("S.X"),
         "dotted2": Option("S.W"),
+        "flatlonger": Option("AB"),
+        "dottedlonger": Option("S.XY"),
         "deep": Option("S.Z.K", 0),
         "defaulted": Option("B", 2),
         "ds": d,
